@@ -201,6 +201,8 @@ def cmap_strategy():
         c = dict(f4=[draw(f4(pe)) for pe in pes], f12=None)
         if draw(st.integers(0, 2)) == 0:
             c['f12'] = draw(f12(draw(st.sampled_from([[3, 10], [0, 4]]))))
+            if draw(st.integers(0, 7)) == 0:
+                c['f4'] = []          # a cmap with a UCS-4 subtable only (no BMP subtable): both lookup paths must treat it alike
         return c
     return cm()
 
